@@ -17,6 +17,15 @@ CLAIMED = {
             "pub flag fields (external code constructing flag structs by hand is out of scope)",
             "DESIGN.md section 4 C14, section 3 R-TF"),
 }
+CLAIMED["C18"] = (
+    "compile-fail witness (E0382) + MIR producer/consumer coverage of task queues (R-QUEUE) + dead-error analysis "
+    "of Result matches (R-ERRDEAD)",
+    "static rules over MIR and a type-level witness: decide that executing a task consumes it, that every queue the "
+    "owner can fill is drained on the owner's own path (single-worker liveness), and that no stage/item error is "
+    "swallowed in pipeline.rs/fiber_pool.rs",
+    "three structural clauses of C18; exactly-once under stealing interleavings, idle detection and result ordering "
+    "values are not decided; trusted: rustc type checker + MIR, extractor, rule tables",
+    "DESIGN.md section 4 C18")
 NA = {
     "C11": "sortedness/permutation/multiset equality of loops over data for all inputs and configurations is value-level; no structural clause is a necessary condition short of the result itself",
     "C12": "lexicographic order of all suffixes, exact LCP and search ranges are value-level for every construction algorithm",
